@@ -118,4 +118,17 @@ LastIssued(i) == IF i = 0 THEN "absent"
                  ELSE LET b == posts[i].beh IN
                       IF b.exc = "none" /\ b.status < 400 /\ b.sess # "absent" THEN b.sess ELSE LastIssued(i - 1)
 SessionMostRecent == \A i \in DOMAIN posts : posts[i].hdr = LastIssued(i - 1)
+
+\* Streamable HTTP implements Pipe for the answers it is obliged to pass on (status < 400, a JSON
+\* or event-stream body that is well formed): sent = what those bodies contain, in POST order;
+\* delivered = the server's messages among what was read for those POSTs
+Obliged(p) == p.beh.exc = "none" /\ p.beh.status < 400 /\ p.beh.ctype \in {"json", "sse"} /\ WellFormedBody(p.beh)
+ServerItems(d) == SelectSeq(d, LAMBDA it : it.src = "server")
+RECURSIVE SentUpTo(_), DeliveredUpTo(_)
+SentUpTo(i) == IF i = 0 THEN <<>> ELSE SentUpTo(i - 1) \o (IF Obliged(posts[i]) THEN Contained(posts[i].beh) ELSE <<>>)
+DeliveredUpTo(i) == IF i = 0 THEN <<>> ELSE DeliveredUpTo(i - 1) \o (IF Obliged(posts[i]) THEN ServerItems(reads[i]) ELSE <<>>)
+PipeOfHttp == INSTANCE Pipe WITH sent <- SentUpTo(Len(posts)), delivered <- DeliveredUpTo(Len(posts))
+ImplementsPipe == PipeOfHttp!Spec
+\* and it is complete after every POST: everything those bodies contained has been handed over
+PipeDrained == DeliveredUpTo(Len(posts)) = SentUpTo(Len(posts))
 =============================================================================
